@@ -50,7 +50,10 @@ pub async fn startup(config: &ServerConfig<SslConfig>) -> anyhow::Result<()> {
                 user_manager.add_user(ServerUser::try_from(user).map_err(|e| anyhow!(e))?);
             }
             let user_manager = Arc::new(user_manager);
-            both(startup_udp::<16>(config, &user_manager), startup_tcp::<16>(config, &user_manager)).await
+            // the TCP and the QUIC listener of an entry serve the same key: they share one context, and with it one record
+            // of the request salts seen, so that a request accepted by one of them is a replay for the other
+            let context: ServerContext<16> = ServerContext::init(config, user_manager.clone())?;
+            both(startup_udp::<16>(config, &user_manager, &context), startup_tcp::<16>(config, &context)).await
         }
         CipherKind::Aes256Gcm
         | CipherKind::Aead2022Blake3Aes256Gcm
@@ -62,7 +65,10 @@ pub async fn startup(config: &ServerConfig<SslConfig>) -> anyhow::Result<()> {
                 user_manager.add_user(ServerUser::try_from(user).map_err(|e| anyhow!(e))?);
             }
             let user_manager = Arc::new(user_manager);
-            both(startup_udp::<32>(config, &user_manager), startup_tcp::<32>(config, &user_manager)).await
+            // the TCP and the QUIC listener of an entry serve the same key: they share one context, and with it one record
+            // of the request salts seen, so that a request accepted by one of them is a replay for the other
+            let context: ServerContext<32> = ServerContext::init(config, user_manager.clone())?;
+            both(startup_udp::<32>(config, &user_manager, &context), startup_tcp::<32>(config, &context)).await
         }
         CipherKind::Unknown => bail!("unknown cipher kind"),
     };
@@ -75,15 +81,14 @@ async fn both(udp: impl Future<Output = anyhow::Result<()>>, tcp: impl Future<Ou
     tokio::try_join!(async { udp.await.map_err(|e| anyhow!("udp={e}")) }, async { tcp.await.map_err(|e| anyhow!("tcp={e}")) }).map(|_| ())
 }
 
-async fn startup_tcp<const N: usize>(config: &ServerConfig<SslConfig>, user_manager: &Arc<ServerUserManager<N>>) -> anyhow::Result<()> {
+async fn startup_tcp<const N: usize>(config: &ServerConfig<SslConfig>, context: &ServerContext<N>) -> anyhow::Result<()> {
     if !config.mode.enable_tcp() {
         return Ok(());
     }
-    let context: ServerContext<N> = ServerContext::init(config, user_manager.clone())?;
-    super::startup_tcp(context, config, |c| Ok(PayloadCodec::from(c))).await
+    super::startup_tcp(context.clone(), config, |c| Ok(PayloadCodec::from(c))).await
 }
 
-async fn startup_udp<const N: usize>(config: &ServerConfig<SslConfig>, user_manager: &Arc<ServerUserManager<N>>) -> anyhow::Result<()> {
+async fn startup_udp<const N: usize>(config: &ServerConfig<SslConfig>, user_manager: &Arc<ServerUserManager<N>>, context: &ServerContext<N>) -> anyhow::Result<()> {
     if !config.mode.enable_udp() && !config.mode.enable_quic() {
         return Ok(());
     }
@@ -170,8 +175,7 @@ async fn startup_udp<const N: usize>(config: &ServerConfig<SslConfig>, user_mana
         if config.quic.is_none() {
             bail!("mode {} needs a quic section", config.mode);
         }
-        let context: ServerContext<N> = ServerContext::init(config, user_manager.clone())?;
-        super::startup_quic(context, config, |c| Ok(PayloadCodec::from(c))).await
+        super::startup_quic(context.clone(), config, |c| Ok(PayloadCodec::from(c))).await
     }
 }
 
